@@ -81,6 +81,22 @@ type World struct {
 	Grp   string
 	Parts []*Part
 	Ctx   context.Context
+	// FieldWhere: WHERE tests a FIELD (`fields:code = "200"`) instead of the message; the histories then give exactly the
+	// kept events that field value and mix events with other values and events WITHOUT any fields among the rest
+	FieldWhere bool
+}
+
+// FieldWhereClause is the WHERE of the field mode.
+const FieldWhereClause = ` where fields:code = "200"`
+
+// SetFieldMode makes `Keep` a statement about the event's fields: kept events carry code=200, the others carry another
+// value or (pick even) no fields at all — a field-less event must not inherit the fields of a record visited before it.
+func SetFieldMode(e *Ev, pick int) {
+	if e.Keep {
+		e.Fld = 1
+		return
+	}
+	e.Fld = []int{0, 2, 0, 3}[pick%4]
 }
 
 type wit struct {
@@ -379,7 +395,11 @@ func (w *World) Query(where bool, rng *[2]int64) string {
 		q += fmt.Sprintf(` range ["%d":"%d"]`, rng[0], rng[1])
 	}
 	if where {
-		q += WhereClause
+		if w.FieldWhere {
+			q += FieldWhereClause
+		} else {
+			q += WhereClause
+		}
 	}
 	return q
 }
